@@ -214,6 +214,10 @@ class Merger(object):
     def write_channel_positions(self):
         """Write the channel positions."""
         channel_positions_l = _load_multiple_files('channel_positions.npy', self.subdirs)
+        # Integer coordinates cannot take the floating point offset below.
+        channel_positions_l = [
+            a if np.issubdtype(a.dtype, np.floating) else a.astype(np.float64)
+            for a in channel_positions_l]
         x_offset = 0.
         for array in channel_positions_l:
             array[:, 0] += x_offset
